@@ -1,8 +1,19 @@
 #!/bin/bash
-# usage: tools/seed_eval.sh <seed-dir-name> <PID> ; applies the seed to /repo, runs the quick check, reverts.
+# usage: tools/seed_eval.sh <seed-dir-name> <PID>
+# Applies the seed to a scratch worktree of /repo's HEAD and runs the check against that tree
+# (VERIF_REPO), with evidence redirected to a scratch directory; /repo itself is never touched.
+# INPLACE=1 applies the patch to /repo's working tree instead (git apply / git checkout -- .).
 n=$1; pid=$2
-cd /repo || exit 9
-if [ -n "$(git status --porcelain)" ]; then echo "/repo dirty, abort"; exit 9; fi
-git apply /verif/seeded/$n/patch.diff || { echo "PATCH DOES NOT APPLY"; exit 3; }
-cd /verif && timeout 1500 bin/check $pid --tier ${TIER:-quick} 2>&1 | grep -v "^  \[" | cut -c1-160 | tail -${LINES_MAX:-4}
-git -C /repo checkout -- . ; git -C /repo status --porcelain
+if [ -n "$INPLACE" ]; then
+  cd /repo || exit 9
+  if [ -n "$(git status --porcelain)" ]; then echo "/repo dirty, abort"; exit 9; fi
+  git apply /verif/seeded/$n/patch.diff || { echo "PATCH DOES NOT APPLY"; exit 3; }
+  cd /verif && timeout 1500 bin/check $pid --tier ${TIER:-quick} 2>&1 | grep -v "^  \[" | cut -c1-160 | tail -${LINES_MAX:-4}
+  git -C /repo checkout -- . ; git -C /repo status --porcelain
+  exit 0
+fi
+wt=$(mktemp -d /tmp/seedeval.XXXXXX); ev=$(mktemp -d /tmp/seedev.XXXXXX)
+git -C /repo worktree add --detach -q $wt HEAD || exit 9
+( cd $wt && git apply /verif/seeded/$n/patch.diff ) || { echo "PATCH DOES NOT APPLY"; git -C /repo worktree remove --force $wt; rm -rf $ev; exit 3; }
+cd /verif && VERIF_REPO=$wt VERIF_EVIDENCE_DIR=$ev timeout 1500 bin/check $pid --tier ${TIER:-quick} 2>&1 | grep -v "^  \[" | cut -c1-160 | sed "s#$ev#<scratch-evidence>#" | tail -${LINES_MAX:-4}
+git -C /repo worktree remove --force $wt; rm -rf $ev $wt
